@@ -487,6 +487,7 @@ let () =
           (match split_on ':' fields with
            | [nm; sz; "w2"; v; f; c] -> (nm, sz, word2_fixed (ni v) (ni f) (ni c))
            | [nm; sz; "wvtt"; dri] -> (nm, sz, wvtt_fixed (ni dri))
+           | [nm; sz; "meta"; fl; v; f] -> (nm, sz, if fl = "0" then [] else L.filteri (fun i _ -> i < 4) (word2_fixed (ni v) (ni f) N0))
            | [nm; sz; "ase"; dri; cc; ss; rate] -> (nm, sz, ase_fixed (ni dri) (ni cc) (ni ss) (ni rate))
            | _ -> failwith "bad pfx M line") in
         let mw = pfx_enc_w (bytes_of_hex nm) (ni sz) fixed ks and msw = pfx_enc_sw (bytes_of_hex nm) (ni sz) fixed ks in
